@@ -228,12 +228,16 @@ def gen_calls(ctx):
     for chunk in range(0, len(obj_ids), 50):
         ids = obj_ids[chunk:chunk + 50]
         as_str = (chunk // 50) % 2 == 1
+        if as_str and (chunk // 50) % 4 == 3:
+            as_str = 'bytes'
         calls.append(('unobj', {'f': 'unobj', 'ids': ids, 'as_str': as_str, 'layout': LAYOUTS[nint % 3]}))
         nint += 0 if as_str else 1
     nint = 0
     for chunk in range(0, len(spec_ids), 50):
         ids = spec_ids[chunk:chunk + 50]
         as_str = (chunk // 50) % 3 == 1
+        if as_str and (chunk // 50) % 6 == 4:
+            as_str = 'bytes'
         calls.append(('unspec', {'f': 'unspec', 'ids': ids, 'as_str': as_str, 'index': (chunk // 50) % 3 == 2,
                                  'layout': LAYOUTS[nint % 3]}))
         nint += 0 if as_str else 1
@@ -409,7 +413,7 @@ def dtype_dist(calls):
             for dt in c['dts']:
                 d['typed:' + dt] = d.get('typed:' + dt, 0) + 1
         elif c['f'] in ('unobj', 'unspec'):
-            key = 'unwrap:' + ('str' if c.get('as_str') else c.get('layout', 'native'))
+            key = 'unwrap:' + (('bytes' if c.get('as_str') == 'bytes' else 'str') if c.get('as_str') else c.get('layout', 'native'))
             d[key] = d.get(key, 0) + 1
     return d
 
@@ -449,7 +453,7 @@ def correspond(ctx, proof_ok=True):
     direct_bad = []
     for ci, ((tag, c), r) in enumerate(zip(calls, results)):
         if c['f'] in ('sweepobj', 'sweepspec') and 'sum' in r and not r['roundtrip']:
-            direct_bad.append((ci, 'unwrap(pack(fields)) != fields somewhere in sweep'))
+            direct_bad.append((ci, 'unwrap(pack(fields)) != fields somewhere in sweep' + (': %s' % r['roundtrip_counterexample'] if r.get('roundtrip_counterexample') else '')))
     dist = {}
     swept = 0
     for (tag, c), r in zip(calls, results):
